@@ -145,6 +145,19 @@ CHECKS["C03"] = dict(
          "Partial: a displacement followed by an exchange inside one plain composite is covered by the tie, not by a theorem.",
     ref="§4 C03")
 
+CHECKS["C05"] = dict(
+    technique="Coq proof by list induction (Model/Labels.v, Model/Context.v, Proofs/LabelsProofs.v, Proofs/ContextProofs.v, Props/C05.v) + "
+              "relational correspondence (vm_compute) of Labels.on_atoms_changed against the label arrays of every move object of real "
+              "GrandCanonical runs after each accepted trial",
+    text="Theorems for all label arrays, all added/removed index sets, all histories: the label array follows the atom count; the atoms "
+         "inserted by one notification share one label, fresh (non-negative, unused) unless a label is configured, which is then "
+         "honoured including 0 and negatives; deletion removes exactly the deleted entries; every distinct move object is updated "
+         "once; the counter equals its initial value plus accepted insertions minus accepted deletions after any history. "
+         "Open finding (not a theorem): two particles inserted by one trial share a label.",
+    ref="§4 C05",
+    note=COMMON_NOTE + " Scope: the exchange moves of one table share one labelling convention (fresh labels or one negative label); a "
+         "non-negative label configured on an exchange move merges particles by the user's own choice and is exercised on displacement moves only.")
+
 NA_REASON = "check not built yet in this round (see DESIGN.md §8 order of construction); no weaker technique substituted"
 
 
